@@ -315,6 +315,9 @@ func (x *X1) run(prefix []int, prefixPoints []point, useCache bool) *Exec {
 			if strings.HasPrefix(t.Pending(), "func:wait-") {
 				continue // a driver whose precondition never came true in this execution: not a thread of the system under test
 			}
+			if sc.NoTick && strings.HasPrefix(t.Pending(), "sleep:") {
+				continue // the scenario froze the clock: a sleeper (the persist loop between two saves) cannot wake up by construction
+			}
 			stuck = append(stuck, t.Name+"@"+t.Pending())
 		}
 		if len(stuck) > 0 {
